@@ -211,7 +211,7 @@ func runC05(ctx *Ctx) error {
 	ctx.CaseTy = "c05_any"
 	ctx.Shard = 500
 	ctx.Exhaustive = true
-	ctx.Rule = "BasicAuth.Validate on 4 account lists (empty, one, two incl. an empty password, duplicate name and empty name) x 36 (user, password) pairs incl. unknown users, empty and near-miss values, plus missing / misplaced / non-Basic / undecodable headers; and exhaustive: every method of the four generated ServiceDescs (driven through its generated handler, so the request message has its real type) x credentials {none, bad, user A, user B} x request graph {g, h} x policies {allow-all, deny-all, 6 pseudo-random allow/deny grids over user x graph (incl. the wildcard '*') x operation class}; BulkAdd additionally with element streams over graphs g/h; observed: was the handler reached (codes.Unimplemented from the Unimplemented*Server), which Enforce calls were made, error code; non-trivial = credentials validate; distinct by input"
+	ctx.Rule = "BasicAuth.Validate on 4 account lists (empty, one, two incl. an empty password, duplicate name and empty name) x 36 (user, password) pairs incl. unknown users, empty and near-miss values, plus missing / misplaced / non-Basic / undecodable headers; and exhaustive (each observed call preceded by an authenticated unary and streamed call on the same interceptor pair): every method of the four generated ServiceDescs (driven through its generated handler, so the request message has its real type) x credentials {none, bad, user A, user B} x request graph {g, h} x policies {allow-all, deny-all, 6 pseudo-random allow/deny grids over user x graph (incl. the wildcard '*') x operation class}; BulkAdd additionally with element streams over graphs g/h; observed: was the handler reached (codes.Unimplemented from the Unimplemented*Server), which Enforce calls were made, error code; non-trivial = credentials validate; distinct by input"
 	descs := []grpc.ServiceDesc{gripql.Query_ServiceDesc, gripql.Edit_ServiceDesc, gripql.Job_ServiceDesc, gripql.Configure_ServiceDesc}
 	type meth struct {
 		name, kind string
@@ -285,6 +285,16 @@ func runC05(ctx *Ctx) error {
 	for _, in := range inputs {
 		acc := &recAccess{policy: in.Policy}
 		ui, si := accounts.VerifInterceptors(recAuth{}, acc)
+		// the interceptors serve many callers: an earlier, properly authenticated call (unary and streamed) on the same
+		// interceptor pair must leave nothing behind for the observed one
+		{
+			pc := metadata.NewIncomingContext(context.Background(), metadata.MD{"user": []string{"A"}, "authorization": []string{"Basic QTpwYQ=="}})
+			ui(pc, &gripql.ElementID{Graph: "g", Id: "x"}, &grpc.UnaryServerInfo{FullMethod: "/gripql.Query/GetVertex"},
+				func(ctx context.Context, req interface{}) (interface{}, error) { return nil, nil })
+			si(srv, &authStream{ctx: pc, graph: "g"}, &grpc.StreamServerInfo{FullMethod: "/gripql.Query/Traversal", IsServerStream: true},
+				func(s interface{}, st grpc.ServerStream) error { return nil })
+			acc.calls = nil
+		}
 		md := metadata.MD{}
 		switch in.Cred {
 		case "bad":
